@@ -1053,6 +1053,12 @@ func sameCell(a, b ssa.Value) bool {
 // ---- C09 ----
 
 func rulesC09(w *World, r *Report) {
+	// strings and byte slices take no reference ordinal: the decoder numbers
+	// none for them, so a byte slice written after a registration shifts every
+	// later reference and two equal slices become a reference (seeded C09m)
+	includeIf(w, r, "C04", "strings and byte slices are written without taking a reference ordinal", 3, func(o *Obligation) bool {
+		return strings.Contains(o.Key, "C04.R1")
+	})
 	w.ruleLenEncoder(r, "C09.R2 string forms, ranges, windows, chunk arithmetic", "string")
 	w.ruleLenEncoder(r, "C09.R2 binary forms, ranges, windows, chunk arithmetic", "binary")
 	w.ruleLenReader(r, "C09.R2 length readers", "string")
